@@ -102,8 +102,15 @@ let () =
         else Hashtbl.replace sect !curop (l :: (try Hashtbl.find sect !curop with Not_found -> []))) log;
       let lines_of n = List.rev (try Hashtbl.find sect n with Not_found -> []) in
       let clock = ref (match kv head "clock" with Some s -> (let v = ios s in if v >= 0 then v else 1000000) | None -> 1000000) in
-      let ghosts : (int, ghost ref) Hashtbl.t = Hashtbl.create 4 in
-      let ghost srv = match Hashtbl.find_opt ghosts srv with Some g -> g | None -> let g = ref ghost_init in Hashtbl.replace ghosts srv g; g in
+      (* per server: the SET of monitor states compatible with the log.  Where the log cannot tell whether
+         the library looked at a response at all (the answer to a server probe whose own timeout may
+         already have removed it - probes end without any callback), both continuations are kept; a
+         verdict is given only when every state of the set rejects the step. *)
+      let ghosts : (int, ghost list ref) Hashtbl.t = Hashtbl.create 4 in
+      let ghost srv = match Hashtbl.find_opt ghosts srv with Some g -> g | None -> let g = ref [ghost_init] in Hashtbl.replace ghosts srv g; g in
+      let common (vs : vkind list list) = match vs with
+        | [] -> []
+        | v0 :: rest -> List.filter (fun x -> List.for_all (List.mem x) rest) v0 in
       let qtbl = Hashtbl.create 16 in
       let qidx id = match Hashtbl.find_opt qtbl id with Some n -> n | None -> let n = Hashtbl.length qtbl in Hashtbl.replace qtbl id n; n in
       let txs : (int, tx) Hashtbl.t = Hashtbl.create 32 in
@@ -124,13 +131,13 @@ let () =
         incr n_apply; if t.tcp then incr n_tcp;
         Hashtbl.replace q_servers t.id (t.srv :: (try Hashtbl.find q_servers t.id with Not_found -> []));
         if t.srv >= 0 && not (Hashtbl.mem stopped t.srv) then begin
-          let g = ghost t.srv in
-          let before = !g in
-          let (g', v) = mon_step !g (EApply (nat_of_int (qidx t.id), t.tcp, src_ip, tv_of_ms !clock, no_rnd))
-              (OApply (t.tcp, aRES_SUCCESS, t.req, O)) in
-          g := g';
-          (match before.g_last, g'.g_last with Some a, Some b when a <> b -> incr n_rot | _ -> ());
-          report t.srv v text
+          let gs = ghost t.srv in
+          let before = List.hd !gs in
+          let res = List.map (fun g -> mon_step g (EApply (nat_of_int (qidx t.id), t.tcp, src_ip, tv_of_ms !clock, no_rnd))
+                                 (OApply (t.tcp, aRES_SUCCESS, t.req, O))) !gs in
+          gs := List.map fst res;
+          (match before.g_last, (List.hd !gs).g_last with Some a, Some b when a <> b -> incr n_rot | _ -> ());
+          report t.srv (common (List.map snd res)) text
         end in
       let sock_tcp = Hashtbl.create 8 in
       let tx_clock : (int, int) Hashtbl.t = Hashtbl.create 16 in   (* id -> clock of its most recent transmission *)
@@ -156,7 +163,9 @@ let () =
           (* if the query's timeout has run out by the time of this read, a retransmission seen in the same
              section may be the timeout's doing: the verdict for this response is not used either *)
           let overdue = (match Hashtbl.find_opt tx_clock t.id with Some c -> !clock - c >= timeout_ms | None -> false) in
-          let probe = stale || overdue || (match Hashtbl.find_opt primary_id t.tok with Some id -> id <> t.id | None -> false) in
+          let is_probe = (match Hashtbl.find_opt primary_id t.tok with Some id -> id <> t.id | None -> false) in
+          let maybe_gone = is_probe && overdue in
+          let probe = stale || overdue || is_probe in
           let cb_seen = List.exists (fun l -> starts l (Printf.sprintf "CB t%d " t.tok) && kv l "rcode" <> None) ls in
           let later_tx = List.find_opt (fun (t2, _) -> t2.id = t.id && t2.x > (match Hashtbl.find_opt latest t.id with Some l -> max l.x x | None -> x)
                                                       && not (Hashtbl.mem consumed t2.x)) sec_txs in
@@ -164,7 +173,7 @@ let () =
              order, as far as the log does not exclude it) so that "who is waiting / done" stays aligned *)
           let stale_outcome =
             if not stale || t.srv < 0 then `None else begin
-              let g = ghost t.srv in
+              let g = ref (List.hd !(ghost t.srv)) in
               let q = nat_of_int (qidx t.id) in
               let n = int_of_z (!g.g_bad q) + 1 in
               let ev = EValidate (q, (match cookie with Some c -> Some (List.map z_of_int c) | None -> None), z_of_int rcode, tv_of_ms !clock) in
@@ -180,17 +189,24 @@ let () =
           if accepted || stale_outcome = `Accept then Hashtbl.replace completed t.id ();
           if accepted then incr n_acc else if resend <> None then incr n_rq else if not probe then incr n_drop;
           if t.srv >= 0 && not (Hashtbl.mem stopped t.srv) then begin
-            let g = ghost t.srv in
+            let gs = ghost t.srv in
             let q = nat_of_int (qidx t.id) in
-            let n = int_of_z (!g.g_bad q) + 1 in
-            let o = OValidate ((if accepted then aRES_SUCCESS else aRES_EBADRESP),
-                               (match resend with Some _ -> Some (aRES_SUCCESS, aRES_FALSE) | None -> None),
-                               z_of_int n,
-                               (match resend with Some (t2, _) -> t2.tcp | None -> false)) in
-            if dbg then Printf.eprintf "%d VALIDATE clock=%d x%d srv=%d id=%d %s probe=%b accepted=%b resend=%b sup=%b reset_ok=%b\n" k !clock x t.srv t.id rtext probe accepted (resend <> None) !g.g_sup !g.g_reset_ok;
-            let was_sup = !g.g_sup and was_reset = !g.g_reset_ok in
-            let (g', v) = mon_step !g (EValidate (q, (match cookie with Some c -> Some (List.map z_of_int c) | None -> None), z_of_int rcode, tv_of_ms !clock)) o in
-            g := g';
+            let ev = EValidate (q, (match cookie with Some c -> Some (List.map z_of_int c) | None -> None), z_of_int rcode, tv_of_ms !clock) in
+            let step g =
+              let n = int_of_z (g.g_bad q) + 1 in
+              mon_step g ev (OValidate ((if accepted then aRES_SUCCESS else aRES_EBADRESP),
+                                        (match resend with Some _ -> Some (aRES_SUCCESS, aRES_FALSE) | None -> None),
+                                        z_of_int n,
+                                        (match resend with Some (t2, _) -> t2.tcp | None -> false))) in
+            let g0 = List.hd !gs in
+            if dbg then Printf.eprintf "%d VALIDATE clock=%d x%d srv=%d id=%d %s probe=%b gone?=%b accepted=%b resend=%b sup=%b reset_ok=%b states=%d\n" k !clock x t.srv t.id rtext probe maybe_gone accepted (resend <> None) g0.g_sup g0.g_reset_ok (List.length !gs);
+            let was_sup = g0.g_sup and was_reset = g0.g_reset_ok in
+            let res = List.map step !gs in
+            (* a probe that is past its own timeout may be gone (it ends silently): keep both worlds *)
+            gs := (if maybe_gone then !gs @ List.map fst res else List.map fst res);
+            if List.length !gs > 16 then Hashtbl.replace stopped t.srv ();
+            let g' = List.hd (List.map fst res) in
+            let v = common (List.map snd res) in
             if g'.g_sup && not was_sup then incr n_sup;
             if g'.g_reset_ok && not was_reset then incr n_unsup;
             (* the answer to a probe of a failed server never reaches a callback: what the channel did
